@@ -6,6 +6,11 @@ mod alpha;
 mod engine;
 mod c01;
 mod c02;
+mod c03;
+mod c04;
+mod c05;
+mod c06;
+mod sm2api;
 mod c07;
 mod c08;
 mod c18;
@@ -19,6 +24,10 @@ fn registry(id: &str) -> Option<(&'static str, RunFn, ReplayFn)> {
     Some(match id {
         "C01" => ("C01", c01::run as RunFn, c01::replay as ReplayFn),
         "C02" => ("C02", c02::run as RunFn, c02::replay as ReplayFn),
+        "C03" => ("C03", c03::run as RunFn, c03::replay as ReplayFn),
+        "C04" => ("C04", c04::run as RunFn, c04::replay as ReplayFn),
+        "C05" => ("C05", c05::run as RunFn, c05::replay as ReplayFn),
+        "C06" => ("C06", c06::run as RunFn, c06::replay as ReplayFn),
         "C07" => ("C07", c07::run as RunFn, c07::replay as ReplayFn),
         "C08" => ("C08", c08::run as RunFn, c08::replay as ReplayFn),
         "C18" => ("C18", c18::run as RunFn, c18::replay as ReplayFn),
@@ -72,8 +81,11 @@ fn main() {
                 std::process::exit(4);
             };
             let ctx = Ctx::new(pid, Tier::Quick, rseed, true);
-            replay(&ctx, &v["case"]);
-            let vs = ctx.violations();
+            let prefix: Vec<serde_json::Value> = v["prefix"].as_array().cloned().unwrap_or_default();
+            if !prefix.is_empty() {
+                println!("REPLAY: executing {} recorded earlier calls first (history-dependent failure)", prefix.len());
+            }
+            let vs = replay_on_fresh_thread(&ctx, replay, &prefix, &v["case"]);
             if vs.is_empty() {
                 println!("REPLAY property={} : no violation reproduced", pid);
                 std::process::exit(0);
